@@ -186,6 +186,40 @@ def run(R):
         pt = pfr.calls(name='put')
         R.check(len(pt) == 1 and mentions_field(pfr.origin(pt[0][1]['args'][0]), 'buf') and mentions_call(pfr.origin(pt[0][1]['args'][1]), name='into_data'), 'C02.R4', 'data-appended', site(pfr), 'data frames are appended to buf')
 
+        # outcome table of poll_frame: Ok(Some(())) = "data arrived, run the decoder again", Ok(None) = "the body is over": a data frame
+        # (empty or not) is never reported as the end of the body
+        def last_guard(bb_):
+            g = pfr.edge_guards(bb_)
+            if not g:
+                return ('none', None)
+            s_, vals, tm = g[-1]
+            truth = not (vals == [0])
+            c = strip_refs(tm)
+            if tm[0] == 'discr':
+                inner = strip_refs(tm[1])
+                nm = inner[3] if is_call(inner) and len(inner) > 3 and isinstance(inner[3], str) else ('poll' if term_contains(tm, lambda x: is_call(x, name='poll_frame')) else show(tm)[:30])
+                return ('discr:%s' % (inner[1].split('::')[-1] if is_call(inner) else nm), vals)
+            if is_call(c):
+                return (c[1].split('::')[-1], truth)
+            return (show(tm)[:30], vals)
+        nsome = 0
+        for bb_, i_, p_, a_, ops_ in mirlib.aggregates(pfr, 'result::Result', 'Ok'):
+            v = pfr.origin(ops_[0])
+            lg = last_guard(bb_)
+            if v[0] == 'agg' and v[1].get('variant') == 'Some':
+                nsome += 1
+                R.check(lg in (('is_data', True), ('discr:into_data', [0])), 'C02.R4', 'data-frame->continue', site(pfr, bb_, i_), 'Ok(Some(())) is produced for every data frame (decided by %r alone)' % (lg,))
+            elif v[0] == 'agg' and v[1].get('variant') == 'None':
+                R.check(lg in (('is_trailers', True), ('has_remaining', False), ('eq', True), ('discr:into_trailers', [0])), 'C02.R4', 'end-of-body-only-when:%s' % lg[0], site(pfr, bb_, i_),
+                        'Ok(None) (stop reading) only for a trailers frame, the end of the body with an empty buffer, or a cancelled request: decided by %r' % (lg,))
+            else:
+                R.bad('C02.R4', 'poll_frame-outcome-unrecognised', site(pfr, bb_, i_), 'Ok(%s): neither Some(()) nor None as a constant — a data frame could be reported as the end of the body' % show(v)[:80], kind='UNRECOGNISED')
+        R.check(nsome >= 1, 'C02.R4', 'data-frame->continue:exists', site(pfr), 'Ok(Some(())) writes: %d' % nsome)
+
+    with R.guard('C02.R4', 'status-writer'):
+        import C04
+        C04.check_status_writer(R, tonic, 'C02.R4')
+
     # ---------------------------------------------------------------- R5 client unary path
     R.describe('C02.R5', 'client_streaming (unary collection): a stream error is returned with the header metadata merged; no message -> INTERNAL; trailers merged into the metadata before the response is built')
     with R.guard('C02.R5'):
